@@ -14,11 +14,15 @@ Proof. exact move_validation_frame. Qed.
 Print Assumptions C09_move_validation_frame.
 
 (* what is guaranteed when the move proceeds: the source exists, the target is neither the source nor
-   inside it, its parent is an existing real directory, and an existing target has no children *)
+   inside it, its parent is an existing real directory, an existing target has no children, and a directory only
+   ever replaces a real directory *)
 Theorem C09_move_go_facts : forall env m s d sp dt, move_validate env m s d = MvGo sp dt ->
   is_Some (m_ents m !! sp) /\ dt <> sp /\ is_under dt sp = false /\
   exists b ddir x, dt = b :: ddir /\ m_ents m !! ddir = Some x /\ e_dir x = true /\ e_link x = false /\
-    match m_ents m !! dt with Some y => default ∅ (e_files y) = ∅ | None => True end.
+    match m_ents m !! dt with
+    | Some y => default ∅ (e_files y) = ∅ /\ (is_dir_at m sp = true -> e_dir y = true /\ e_link y = false)
+    | None => True
+    end.
 Proof. exact move_go_facts. Qed.
 Print Assumptions C09_move_go_facts.
 
